@@ -71,6 +71,7 @@ SameResult(res, tb, head, tails) ==
 DatLens(tb, t) == LET fs == Files(tb[t]) IN {<<x, FLen(tb[t].dat[x].vol)>> : x \in fs}
 SameLens(lens, tb) ==
   \A t \in Tables : /\ lens[t].idx = 6 * Len(tb[t].idx.vol)
+                    /\ lens[t].meta = << Hidden(tb[t]), 6 * Fo(tb[t]) >>        \* the metadata file content: [virtualTail, flushOffset]
                     /\ {<<lens[t].dat[i][1], lens[t].dat[i][2]>> : i \in 1..Len(lens[t].dat)} = DatLens(tb, t)
 
 (* ---------------------------- crash images ---------------------------- *)
